@@ -239,6 +239,14 @@ func printSels(b *strings.Builder, sels []Sel, ind string) {
 	b.WriteString(ind + "}")
 }
 
+// Root is the name of the query's root object type.
+func (q *Query) Root() string {
+	if q.Kind == "mutation" {
+		return "Mutation"
+	}
+	return "Query"
+}
+
 // Text prints the query as GraphQL.
 func (q *Query) Text() string {
 	var b strings.Builder
@@ -294,6 +302,7 @@ type GenOpts struct {
 	NoDupUnionFrag bool // at most one fragment per union member (exclusion of a known finding)
 	NoUnionTypename bool // no bare __typename under a union together with shared named fragments
 	UnionTypenameAlways bool // always select __typename under unions (federation gateway injects it)
+	Mutation       bool // a mutation: root selections come from the spec's "Mutation" object
 	ShareBias      bool // favour named fragments spread at several places, each followed by a merged copy of one of the fragment's composite fields
 }
 
@@ -764,6 +773,9 @@ func GenQuery(t *rapid.T, s *Spec, o GenOpts) (*Query, Features) {
 		o.MaxDepth = 4
 	}
 	q := &Query{Values: map[string]interface{}{}}
+	if o.Mutation {
+		q.Kind = "mutation"
+	}
 	feat := Features{}
 	g := &qgen{t: t, s: s, o: o, q: q, feat: &feat, aliasOf: map[string]string{}, spreadCount: map[string]int{}, spreadConds: map[string]map[string]bool{}}
 	if rapid.IntRange(0, 3).Draw(t, "named") == 0 {
@@ -798,7 +810,7 @@ func GenQuery(t *rapid.T, s *Spec, o GenOpts) (*Query, Features) {
 }
 
 func (g *qgen) genRootSels(depth int) []Sel {
-	fields := g.s.FieldsOf("Query")
+	fields := g.s.FieldsOf(g.q.Root())
 	var sels []Sel
 	n := rapid.IntRange(1, 4).Draw(g.t, "nroot")
 	scope := map[string]int{}
@@ -807,7 +819,7 @@ func (g *qgen) genRootSels(depth int) []Sel {
 		switch {
 		case choice <= 6 || i == 0:
 			f := fields[rapid.IntRange(0, len(fields)-1).Draw(g.t, "rootfield")]
-			s := g.genField("Query", f, depth, false)
+			s := g.genField(g.q.Root(), f, depth, false)
 			if i == 0 {
 				s.Dirs = nil // keep one unconditional root selection
 			}
@@ -817,7 +829,7 @@ func (g *qgen) genRootSels(depth int) []Sel {
 			scope[s.Key()]++
 			sels = append(sels, s)
 		case choice == 7:
-			sels = append(sels, Sel{Kind: "inline", On: "Query", Sub: g.genRootSels(depth - 1), Dirs: g.genDirs(false)})
+			sels = append(sels, Sel{Kind: "inline", On: g.q.Root(), Sub: g.genRootSels(depth - 1), Dirs: g.genDirs(false)})
 		case choice == 8:
 			sels = append(sels, Sel{Kind: "field", Name: "__typename"})
 		default:
@@ -830,9 +842,9 @@ func (g *qgen) genRootSels(depth int) []Sel {
 func (g *qgen) genSpreadRoot(depth int) Sel {
 	name := fmt.Sprintf("F%d", len(g.q.Frags))
 	idx := len(g.q.Frags)
-	g.q.Frags = append(g.q.Frags, FragDef{Name: "INPROGRESS" + name, On: "Query"})
+	g.q.Frags = append(g.q.Frags, FragDef{Name: "INPROGRESS" + name, On: g.q.Root()})
 	sels := g.genRootSels(depth - 1)
-	g.q.Frags[idx] = FragDef{Name: name, On: "Query", Sels: sels}
+	g.q.Frags[idx] = FragDef{Name: name, On: g.q.Root(), Sels: sels}
 	g.feat.NamedFrags++
 	g.spreadCount[name]++
 	s := Sel{Kind: "spread", Frag: name, Dirs: g.genDirs(false)}
